@@ -211,6 +211,10 @@ pub fn build(repo: &Path, root: &Path, with_big: bool) -> Tree {
         };
         fs::write(dst_dir.join(&f.file), shadow).unwrap();
     }
+    // a second working directory from which the relative spellings resolve to the same files
+    fs::create_dir_all(root.join("cwd2")).unwrap();
+    symlink("../fx", root.join("cwd2/fx")).unwrap();
+    symlink("../bad", root.join("cwd2/bad")).unwrap();
     // broken inputs
     let bad = root.join("bad");
     fs::create_dir_all(bad.join("alias")).unwrap();
